@@ -1,2 +1,108 @@
-(* placeholder while the proofs are being written *)
-From PV Require Import Base.Tac RBTree.RBTreeDefs.
+(* C36 — The red-black tree keeps order and balance.
+   Statements only; proofs live in RBTree/RBTree{Order,Balance,Proofs}.v.
+   [run ops] is the tree after the history [ops] of insert / remove /
+   update_node calls starting from the empty tree (RBTree/RBTreeDefs.v); a
+   history may be of any length, over any keys, with or without repeated keys. *)
+From Coq Require Import Sorted.
+From PV Require Import Base.Tac RBTree.RBTreeDefs RBTree.RBTreeProofs.
+Local Open Scope Z_scope.
+
+(* every operation keeps: black root, no red node with a red child, equal black
+   heights, search-tree order, distinct node identities — from any tree that has them *)
+Theorem C36_invariants_step : forall t o,
+  is_rb t -> bst t -> NoDup (ids t) -> is_rb (step t o) /\ bst (step t o) /\ NoDup (ids (step t o)).
+Proof. exact invariants_step. Qed.
+Print Assumptions C36_invariants_step.
+
+(* hence after any history *)
+Theorem C36_invariants : forall ops,
+  col (run ops) = Black /\ nrr (run ops) /\ bal (run ops) /\ bst (run ops) /\ NoDup (ids (run ops)).
+Proof. exact invariants. Qed.
+Print Assumptions C36_invariants.
+
+(* exact lookup finds exactly the stored keys *)
+Theorem C36_find : forall ops q,
+  match find q (run ops) with
+  | Some n => In n (nodes (run ops)) /\ nkey n = q
+  | None => ~ In q (keys (run ops))
+  end.
+Proof. exact find_correct. Qed.
+Print Assumptions C36_find.
+
+(* lookup-or-larger returns a node with the smallest stored key not below the query, NULL iff there is none *)
+Theorem C36_find_or_larger : forall ops q,
+  match find_or_larger q (run ops) with
+  | Some n => In n (nodes (run ops)) /\ q <= nkey n /\
+              forall m, In m (nodes (run ops)) -> q <= nkey m -> nkey n <= nkey m
+  | None => forall m, In m (nodes (run ops)) -> nkey m < q
+  end.
+Proof. exact find_or_larger_correct. Qed.
+Print Assumptions C36_find_or_larger.
+
+(* insert adds exactly the node, at a sorted place of the in-order sequence *)
+Theorem C36_insert_content : forall ops id k,
+  (In id (ids (run ops)) -> step (run ops) (Insert id k) = run ops) /\
+  (~ In id (ids (run ops)) -> exists A B, nodes (run ops) = A ++ B /\
+      nodes (step (run ops) (Insert id k)) = A ++ (id, k) :: B /\
+      (forall a, In a A -> nkey a <= k) /\ (forall b, In b B -> k < nkey b)).
+Proof. exact insert_content. Qed.
+Print Assumptions C36_insert_content.
+
+(* remove deletes exactly the node and keeps the order of the others (any tree) *)
+Theorem C36_remove_content : forall id t,
+  (~ In id (ids t) -> remove id t = t) /\
+  (In id (ids t) -> exists A n B, nodes t = A ++ n :: B /\ nid n = id /\ nodes (remove id t) = A ++ B).
+Proof. exact remove_content. Qed.
+Print Assumptions C36_remove_content.
+
+(* update_node answers ERR_EXISTS exactly when another node holds the key, and then changes nothing;
+   otherwise the node, and only it, gets the new key (in place or by re-insertion) *)
+Theorem C36_update_spec : forall ops id k,
+  In id (ids (run ops)) ->
+  exists A n B, nodes (run ops) = A ++ n :: B /\ nid n = id /\
+    (snd (update id k (run ops)) = false <-> exists m, In m (A ++ B) /\ nkey m = k) /\
+    (snd (update id k (run ops)) = false -> fst (update id k (run ops)) = run ops) /\
+    (snd (update id k (run ops)) = true ->
+       exists A' B', A ++ B = A' ++ B' /\ nodes (fst (update id k (run ops))) = A' ++ (id, k) :: B').
+Proof. exact update_spec. Qed.
+Print Assumptions C36_update_spec.
+
+(* when every insert is guarded by a failed find (what zone_malloc.c does), keys stay pairwise distinct *)
+Theorem C36_unique_keys : forall ops, all_guarded E ops -> bst_strict (run ops).
+Proof. exact unique_keys. Qed.
+Print Assumptions C36_unique_keys.
+
+Theorem C36_minimum : forall ops,
+  match minimum (run ops) with
+  | Some n => In n (nodes (run ops)) /\ forall m, In m (nodes (run ops)) -> nkey n <= nkey m
+  | None => run ops = E
+  end.
+Proof. exact minimum_correct. Qed.
+Print Assumptions C36_minimum.
+
+(* parsec_rbtree_foreach visits the keys in non-decreasing order *)
+Theorem C36_foreach_sorted : forall ops, StronglySorted Z.le (keys (run ops)).
+Proof. exact foreach_sorted. Qed.
+Print Assumptions C36_foreach_sorted.
+
+(* balance in path form: all root-to-nil paths hold the same number of black nodes *)
+Theorem C36_paths_equal : forall ops h1 h2,
+  In h1 (paths (run ops)) -> In h2 (paths (run ops)) -> h1 = h2.
+Proof. exact paths_equal. Qed.
+Print Assumptions C36_paths_equal.
+
+Theorem C36_depth_log : forall ops, (depth (run ops) <= 2 * Nat.log2 (size (run ops) + 1))%nat.
+Proof. exact depth_logarithmic. Qed.
+Print Assumptions C36_depth_log.
+
+(* non-vacuity: a guarded history that exercises recolouring, rotations, a removal with delete
+   fix-up, an in-place update, a refused update and a re-inserting update *)
+Example C36_example :
+  let h := [Insert 1 10; Insert 2 20; Insert 3 30; Insert 4 40; Insert 5 50; Insert 6 60; Insert 7 70;
+            Remove 1; Update 4 45; Update 4 50; Update 7 5] in
+  all_guarded E h /\
+  run h = T Black (T Black (T Red E (7, 5) E) (2, 20) (T Red E (3, 30) E)) (4, 45)
+                  (T Black (T Red E (5, 50) E) (6, 60) E) /\
+  snd (update 4 50 (run h)) = false /\
+  find_or_larger 46 (run h) = Some (5, 50) /\ find 45 (run h) = Some (4, 45) /\ find 40 (run h) = None.
+Proof. vm_compute. repeat split; reflexivity. Qed.
